@@ -3,14 +3,14 @@ import itertools, threading
 import core, gen, frames as F
 from props.base import PropBase
 
-KINDS = ["refuse", "close", "frames", "partial", "junk", "long", "reset0", "cut"]
+KINDS = ["refuse", "close", "frames", "partial", "junk", "long", "reset0", "cut", "longjunk"]
 
 class C18(PropBase):
     id = "C18"
     corr_fields = []
     lean_modules = ["SqModel.Props.C18", "SqModel.Proofs.BridgeBits"]
     extractors = ["tcp", "trans_bits"]
-    rule = ("fault sequences over {refuse, accept+close, accept+frames+close, accept+partial line+reset, accept+junk bytes+close, accept+frames+6.5 s up+close, accept+immediate reset, accept+frames+line cut inside the time stamp / after the opening mark / inside the frame+close} "
+    rule = ("fault sequences over {refuse, accept+close, accept+frames+close, accept+partial line+reset, accept+junk bytes+close, accept+frames+6.5 s up+close, accept+immediate reset, accept+1 KiB..70 KiB without a line end+close, accept+frames+line cut inside the time stamp / after the opening mark / inside the frame+close} "
             "of length <= 2 (quick: 10 sequences, thorough: all 42 plus 40 of length 3), each followed by a healthy connection, "
             "played by a scripted loopback peer against the real connect_and_read_tcp loop (real 5 s pauses, sequences run in "
             "parallel processes); a first connection teaches an aircraft before the faults; every second sequence with the -l error log, every third with the -D downlink log; sequences with the long-lived connection run with delete_after = 5 s, shorter than that connection, the others with delete_after 600 / 0 / 1 / 2^62 and refresh intervals -1 / 0 / 3 / 2^62. Observed: the reader reconnects after "
@@ -51,6 +51,10 @@ class C18(PropBase):
                 tail = styles[self.cut_no % len(styles)]          # every style in turn
                 data = (F.df11(5, a, 0) + "\n" + tail).encode()
                 steps.append("data:%s:eof" % data.hex()); expect.add(a)
+            elif k == "longjunk":
+                # a kilobyte or more of bytes without a single line end (a feed in another protocol), then the peer closes cleanly
+                n = rng.choice([1023, 1024, 1025, 3000, 4096, 9000, 70000])
+                steps.append("data:%s:eof" % bytes(rng.choice([rng.randrange(128, 256), rng.randrange(11, 128), 0]) for _ in range(n)).replace(b"\n", b"x").hex())
             elif k == "reset0":    # accepted and reset at once, before a single byte was sent (a forwarder whose far end is down)
                 steps.append("data::reset")
             elif k == "junk":
@@ -67,7 +71,7 @@ class C18(PropBase):
         seqs = [("refuse",), ("close",), ("frames",), ("partial",), ("junk",), ("long",), ("refuse", "partial"), ("partial", "refuse"), ("refuse", "refuse"), ("long", "partial"), ("reset0",), ("reset0", "refuse"),
                 # connections that delivered nothing, then a port that stays closed across TWO attempts: the pause after a failed attempt
                 # is about 5 s whatever came before (a single closed window of 2.5 s cannot tell a late first attempt from a refused one)
-                ("close", "refuse", "refuse"), ("reset0", "junk", "refuse", "refuse"), ("cut",), ("cut", "cut"), ("cut", "refuse"), ("cut", "cut", "cut")]
+                ("close", "refuse", "refuse"), ("reset0", "junk", "refuse", "refuse"), ("cut",), ("cut", "cut"), ("cut", "refuse"), ("cut", "cut", "cut"), ("longjunk",), ("longjunk", "refuse"), ("longjunk", "longjunk", "frames")]
         if tier == "thorough":
             seqs = [()] + [(k,) for k in KINDS] + list(itertools.product(KINDS, repeat=2)) + rng.sample(list(itertools.product(KINDS, repeat=3)), 40)
         results = {}
